@@ -165,8 +165,8 @@ fn helpers_step<const N: usize>(p: usize) {
     }
     assert!(cursor_ok(&lx, &t), "cursor: inside the text and on a character boundary");
     assert!(lx.pos >= p, "cursor: never moves backwards");
-    kani::cover!(which == 0 && lx.pos > p, "whitespace skipped");
-    kani::cover!(N < 2 || (which == 1 && lx.pos == N), "comment to end of text");
+    kani::cover!(p >= N || (which == 0 && lx.pos > p), "whitespace skipped");
+    kani::cover!(p >= N || (which == 1 && lx.pos == N), "comment to end of text");
     std::mem::forget(lx);
     std::mem::forget(arena);
 }
@@ -251,7 +251,7 @@ fn scan_step<const N: usize>(p: usize, which: u8) {
     assert!(lx.pos > p || unsafe { REENTRY_COUNT > 0 }, "progress: the routine consumes at least one byte");
     assert!(unsafe { !BAD_SPAN }, "spans: every diagnostic/label span is inside the text, ordered and on boundaries");
     assert!(token_ok(&t, p, &tok), "lexeme: token text is a boundary-aligned sub-slice (or valid UTF-8 when owned)");
-    kani::cover!(which == 1 || N < 2 || unsafe { DIAG_COUNT > 0 }, "a diagnostic was emitted");
+    kani::cover!(which == 1 || N - p < 2 || unsafe { DIAG_COUNT > 0 }, "a diagnostic was emitted");
     kani::cover!((which == 2 && N - p < 2) || (unsafe { DIAG_COUNT == 0 } && lx.pos == N), "clean token to end of text");
     std::mem::forget(tok);
     std::mem::forget(lx);
@@ -306,8 +306,8 @@ fn next_token_step<const N: usize>(p: usize) {
     assert!((matches!(st.token, Token::EOF) && lx.pos >= N) || lx.pos > p, "progress: EOF at the end or the cursor advanced");
     assert!(unsafe { !BAD_SPAN }, "spans: every diagnostic/label span is inside the text, ordered and on boundaries");
     assert!(token_ok(&t, st.span.start, &st.token), "lexeme: token text is a boundary-aligned sub-slice (or valid UTF-8 when owned)");
-    kani::cover!(!matches!(st.token, Token::EOF), "a token was produced");
-    kani::cover!(N == 0 || unsafe { DIAG_COUNT > 0 }, "a diagnostic was emitted");
+    kani::cover!(p >= N || !matches!(st.token, Token::EOF), "a token was produced");
+    kani::cover!(p >= N || unsafe { DIAG_COUNT > 0 }, "a diagnostic was emitted");
     std::mem::forget(st);
     std::mem::forget(lx);
 }
@@ -320,5 +320,268 @@ macro_rules! next_token_step {
             #[kani::unwind($unw)]
             fn $name() { next_token_step::<$n>($p) }
         }
+    };
+}
+
+// =====================================================================================
+// C10 — layout insignificance (relational obligations)
+// =====================================================================================
+
+// Deterministic models of the three scanning routines (functions of (src, pos) only), used
+// where the *dispatcher's* separator handling is the subject: whatever routine runs after the
+// separator sees the same (text, cursor) in both runs and therefore does the same thing.
+impl<'arena, 'input: 'arena> Lexer<'arena, 'input> {
+    fn verif_run_to_space(&mut self) {
+        while self.pos < self.len && !self.src[self.pos].is_ascii_whitespace() {
+            self.pos += 1;
+        }
+    }
+    fn verif_scan_number_det(&mut self, _start: usize) -> Token<'arena> {
+        self.verif_run_to_space();
+        Token::Comma
+    }
+    fn verif_scan_ident_det(&mut self, _start: usize) -> Token<'arena> {
+        self.verif_run_to_space();
+        Token::Dot
+    }
+    fn verif_scan_string_det(&mut self, _start: usize, _quote: u8) -> Token<'arena> {
+        self.verif_run_to_space();
+        Token::LParen
+    }
+    /// deterministic stand-in for the recursive re-entry inside scan_number
+    fn verif_next_token_det(&mut self) -> SpannedToken<'arena> {
+        SpannedToken { token: Token::EOF, span: Range::from(self.pos..self.pos) }
+    }
+}
+
+fn kind(t: &Token<'_>) -> u8 {
+    match t {
+        Token::EOF => 0,
+        Token::Comma => 1,
+        Token::Dot => 2,
+        Token::LParen => 3,
+        Token::RParen => 4,
+        Token::LBracket => 5,
+        Token::RBracket => 6,
+        Token::Number(_) => 7,
+        Token::Identifier(_) => 8,
+        Token::String(_) => 9,
+        Token::IfToSay => 10,
+        Token::IfNotSo => 11,
+        Token::SmallPass => 12,
+        _ => 13,
+    }
+}
+
+fn lexeme_bytes<'a>(t: &'a Token<'_>) -> &'a [u8] {
+    match t {
+        Token::Number(s) | Token::Identifier(s) => s.as_bytes(),
+        Token::String(s) => s.as_bytes(),
+        _ => &[],
+    }
+}
+
+fn same_token(a: &Token<'_>, b: &Token<'_>) -> bool {
+    if kind(a) != kind(b) {
+        return false;
+    }
+    if kind(a) == 13 {
+        return std::mem::discriminant(a) == std::mem::discriminant(b);
+    }
+    let (x, y) = (lexeme_bytes(a), lexeme_bytes(b));
+    if x.len() != y.len() {
+        return false;
+    }
+    let mut i = 0;
+    while i < x.len() {
+        if x[i] != y[i] {
+            return false;
+        }
+        i += 1;
+    }
+    true
+}
+
+/// 10.a: starting before a separator == starting after it.  The text is S ++ suffix with a
+/// concrete separator shape S of K bytes (comment bodies symbolic) and a symbolic suffix.
+fn separator_skip<const N: usize, const K: usize>(sep: [u8; K]) {
+    let arena = Arena::new(1).unwrap();
+    let arena: &'static Arena = unsafe { &*(&arena as *const Arena) };
+    let mut t = any_text::<N>();
+    let mut i = 0;
+    while i < K {
+        if sep[i] == b'c' {
+            // comment body byte: anything but a line break
+            kani::assume(t[i] != b'\n' && t[i] != b'\r' && t[i] < 0x80);
+        } else {
+            kani::assume(t[i] == sep[i]);
+        }
+        i += 1;
+    }
+    // "\r" alone ends a comment; the byte after the separator is unconstrained
+    unsafe {
+        BAD_SPAN = false;
+        DIAG_COUNT = 0;
+    }
+    let mut a = lexer_at(&t, arena, 0);
+    let ta = a.next_token();
+    let da = unsafe { DIAG_COUNT };
+    let mut b = lexer_at(&t, arena, K);
+    let tb = b.next_token();
+    let db = unsafe { DIAG_COUNT } - da;
+    assert!(same_token(&ta.token, &tb.token), "separator: same next token with and without the separator");
+    assert!(ta.span == tb.span, "separator: same token span");
+    assert!(a.pos == b.pos, "separator: same cursor afterwards");
+    assert!(da == db, "separator: the separator produces no diagnostic of its own");
+    kani::cover!(N == K || !matches!(ta.token, Token::EOF), "a token follows the separator");
+    kani::cover!(N == K || a.pos > K + 1 || matches!(ta.token, Token::EOF), "suffix longer than one byte consumed");
+    std::mem::forget(ta);
+    std::mem::forget(tb);
+    std::mem::forget(a);
+    std::mem::forget(b);
+}
+macro_rules! separator_skip {
+    ($name:ident, $n:literal, $k:literal, $sep:expr, $unw:literal) => {
+        lex_proof! {
+            #[kani::stub(crate::syntax::scanner::Lexer::scan_number, crate::syntax::scanner::Lexer::verif_scan_number_det)]
+            #[kani::stub(crate::syntax::scanner::Lexer::scan_identifier_or_keyword, crate::syntax::scanner::Lexer::verif_scan_ident_det)]
+            #[kani::stub(crate::syntax::scanner::Lexer::scan_string, crate::syntax::scanner::Lexer::verif_scan_string_det)]
+            #[kani::unwind($unw)]
+            fn $name() { separator_skip::<$n, $k>($sep) }
+        }
+    };
+}
+
+/// 10.a': translation invariance of a scanning routine: on T at cursor 0 and on P ++ T at
+/// cursor K (same symbolic T) the routine returns the same token and corresponding cursors.
+static mut SPAN_SUM: usize = 0;
+fn translation<const N: usize, const M: usize>(which: u8) {
+    // M == N + 1: one arbitrary ASCII prefix byte
+    let arena = Arena::new(1).unwrap();
+    let arena: &'static Arena = unsafe { &*(&arena as *const Arena) };
+    let t = any_text::<N>();
+    let mut u = [0u8; M];
+    let pre: u8 = kani::any();
+    kani::assume(pre < 0x80);
+    u[0] = pre;
+    let mut i = 0;
+    while i < N {
+        u[i + 1] = t[i];
+        i += 1;
+    }
+    kani::assume(N > 0);
+    match which {
+        0 => kani::assume(t[0].is_ascii_digit()),
+        1 => kani::assume(t[0].is_ascii_alphabetic() || t[0] == b'_'),
+        _ => kani::assume(t[0] == b'"' || t[0] == b'\''),
+    }
+    unsafe {
+        BAD_SPAN = false;
+        DIAG_COUNT = 0;
+    }
+    let mut a = lexer_at(&t, arena, 0);
+    let ta = match which {
+        0 => a.scan_number(0),
+        1 => a.scan_identifier_or_keyword(0),
+        _ => a.scan_string(0, t[0]),
+    };
+    let da = unsafe { DIAG_COUNT };
+    let mut b = lexer_at(&u, arena, 1);
+    let tb = match which {
+        0 => b.scan_number(1),
+        1 => b.scan_identifier_or_keyword(1),
+        _ => b.scan_string(1, u[1]),
+    };
+    let db = unsafe { DIAG_COUNT } - da;
+    assert!(same_token(&ta, &tb), "translation: same token wherever the text sits");
+    assert!(b.pos == a.pos + 1, "translation: cursors correspond");
+    assert!(da == db, "translation: same number of diagnostics");
+    kani::cover!(N < 2 || da > 0 || which == 1, "a diagnostic in both runs");
+    kani::cover!(a.pos == N, "routine consumed the whole text");
+    std::mem::forget(ta);
+    std::mem::forget(tb);
+    std::mem::forget(a);
+    std::mem::forget(b);
+}
+macro_rules! translation {
+    ($name:ident, $n:literal, $m:literal, $which:literal, $unw:literal) => {
+        lex_proof! {
+            #[kani::stub(crate::syntax::scanner::Lexer::next_token, crate::syntax::scanner::Lexer::verif_next_token_det)]
+            #[kani::unwind($unw)]
+            fn $name() { translation::<$n, $m>($which) }
+        }
+    };
+}
+
+/// 10.b: multi-word keywords with any separator run between the words.
+/// words: W1 s1 W2 [s2 W3] tail, separators of 1..2 whitespace bytes each (symbolic).
+fn multiword<const N: usize>(w1: &[u8], w2: &[u8], w3: &[u8], l1: usize, l2: usize, good: bool, expect: u8) {
+    let arena = Arena::new(1).unwrap();
+    let arena: &'static Arena = unsafe { &*(&arena as *const Arena) };
+    let mut t = [0u8; N];
+    let mut o = 0;
+    let ws = |b: u8| b == b' ' || b == b'\t' || b == b'\n' || b == b'\r';
+    let mut put = |t: &mut [u8; N], o: &mut usize, w: &[u8]| {
+        let mut i = 0;
+        while i < w.len() {
+            t[*o] = w[i];
+            *o += 1;
+            i += 1;
+        }
+    };
+    put(&mut t, &mut o, w1);
+    let end1 = o;
+    let mut i = 0;
+    while i < l1 {
+        let s: u8 = kani::any();
+        kani::assume(ws(s));
+        t[o] = s;
+        o += 1;
+        i += 1;
+    }
+    put(&mut t, &mut o, w2);
+    if !w3.is_empty() {
+        let mut i = 0;
+        while i < l2 {
+            let s: u8 = kani::any();
+            kani::assume(ws(s));
+            t[o] = s;
+            o += 1;
+            i += 1;
+        }
+        put(&mut t, &mut o, w3);
+    }
+    let end = o;
+    // what follows the last word: end of text, or a byte that is / is not a word byte
+    if o < N {
+        let tail: u8 = kani::any();
+        kani::assume(tail < 0x80);
+        if good {
+            kani::assume(!(tail.is_ascii_alphabetic() || tail == b'_'));
+        } else {
+            kani::assume(tail.is_ascii_alphabetic() || tail == b'_');
+        }
+        t[o] = tail;
+        o += 1;
+    }
+    assert!(o == N);
+    let mut lx = lexer_at(&t, arena, 0);
+    let tok = lx.scan_identifier_or_keyword(0);
+    if good || N == end {
+        assert!(kind(&tok) == expect, "multiword: the keyword is recognised whatever separates its words");
+        assert!(lx.pos == end, "multiword: the cursor ends after the last word");
+    } else {
+        // a longer last word is not the keyword: roll back to the end of the first word
+        assert!(kind(&tok) == 8, "multiword: not a keyword when the last word continues");
+        assert!(lx.pos == end1, "multiword: rollback to the end of the first word, independent of the separators");
+    }
+    kani::cover!(l1 < 2 || (t[end1] == b'\r' && t[end1 + 1] == b'\n'), "CRLF between the words");
+    kani::cover!(t[end1] == b'\t', "tab between the words");
+    std::mem::forget(tok);
+    std::mem::forget(lx);
+}
+macro_rules! multiword {
+    ($name:ident, $n:literal, $w1:expr, $w2:expr, $w3:expr, $l1:literal, $l2:literal, $good:literal, $expect:literal, $unw:literal) => {
+        lex_proof! { #[kani::unwind($unw)] fn $name() { multiword::<$n>($w1, $w2, $w3, $l1, $l2, $good, $expect) } }
     };
 }
